@@ -3,6 +3,7 @@ package c10
 
 import (
 	"context"
+	"crypto/x509"
 	"fmt"
 	"math/big"
 	"math/rand/v2"
@@ -60,14 +61,28 @@ type world struct {
 	v    revocation.Validator
 	ft   *sims.Fetcher
 	cert *big.Int
+	sib  *x509.Certificate
 }
 
 func newWorld() *world {
 	fam := sims.Fam(2, "p256", false)
 	sh := sims.HTTPShape(0, 1)
 	kit := fam.KitFor(0, sh, sims.Shape{})
-	return &world{fam: fam, kit: kit, url: fam.URL(0, "d", 0, "http"), cert: kit.Cert.SerialNumber}
+	w := &world{fam: fam, kit: kit, url: fam.URL(0, "d", 0, "http"), cert: kit.Cert.SerialNumber}
+	// a sibling: another leaf of the same issuer, on the same list
+	spec := pki.LeafSpec(pki.K("p256", 8), "c10-sibling")
+	spec.CDP = []string{w.url}
+	sib, err := pki.Issue(spec, kit.Issuer, kit.IKey)
+	if err != nil {
+		panic(err)
+	}
+	w.sib = sib
+	return w
 }
+
+// isSib says whether the i-th entry of a list, when it does not name the
+// checked certificate, names its sibling (else: a serial of nobody here).
+func isSib(e refmodel.CRLEntry, i int) bool { return !e.Match && i%2 == 1 }
 
 func (w *world) entries(es []refmodel.CRLEntry) []pki.CRLEntry {
 	var out []pki.CRLEntry
@@ -75,6 +90,8 @@ func (w *world) entries(es []refmodel.CRLEntry) []pki.CRLEntry {
 		pe := pki.CRLEntry{Time: times[e.T], Reason: e.Reason, UnknownCritical: e.Crit}
 		if e.Match {
 			pe.Serial = w.cert
+		} else if isSib(e, i) {
+			pe.Serial = w.sib.SerialNumber
 		} else {
 			pe.Serial = new(big.Int).Add(w.cert, big.NewInt(int64(1000+i)))
 		}
@@ -101,6 +118,13 @@ func (w *world) entries(es []refmodel.CRLEntry) []pki.CRLEntry {
 }
 
 func (w *world) exec(c Case) (got string, detail string, p *core.PanicInfo) {
+	got, _, detail, p = w.exec2(c)
+	return
+}
+
+// exec2 checks the certificate and its sibling against the SAME bundle object,
+// one after the other (which one first depends on the case).
+func (w *world) exec2(c Case) (got, gotSib string, detail string, p *core.PanicInfo) {
 	base := &pki.CRL{IssuerRawName: w.kit.Issuer.RawSubject, SignKey: w.kit.IKey, NextUpdate: pki.Future, Number: big.NewInt(100), Entries: w.entries(c.Base)}
 	b := &crl.Bundle{BaseCRL: pki.MustParseCRL(pki.BuildCRL(base))}
 	if c.HasDelta {
@@ -111,27 +135,39 @@ func (w *world) exec(c Case) (got string, detail string, p *core.PanicInfo) {
 	ft.Bundles[w.url] = b
 	v, err := revocation.NewWithOptions(revocation.Options{OCSPHTTPClient: sims.DeadClient(), CRLFetcher: ft})
 	if err != nil {
-		return "", "NewWithOptions: " + err.Error(), nil
+		return "", "", "NewWithOptions: " + err.Error(), nil
 	}
 	var st time.Time
 	if c.WithST {
 		st = sims.SigningTime
 	}
 	chain := w.fam.Chain([]sims.Shape{sims.HTTPShape(0, 1), {}})
-	p = core.Guard(func() {
-		rs, err := v.ValidateContext(context.Background(), revocation.ValidateContextOptions{CertChain: chain, AuthenticSigningTime: st})
+	sibChain := []*x509.Certificate{w.sib, chain[1]}
+	one := func(ch []*x509.Certificate, out *string) {
+		rs, err := v.ValidateContext(context.Background(), revocation.ValidateContextOptions{CertChain: ch, AuthenticSigningTime: st})
 		if err != nil || len(rs) != 2 || rs[0] == nil {
 			detail = fmt.Sprintf("err=%v len=%d", err, len(rs))
 			return
 		}
-		got = rs[0].Result.String()
-		detail = sims.CanonString(sims.Canon(rs))
+		*out = rs[0].Result.String()
+		if out == &got {
+			detail = sims.CanonString(sims.Canon(rs))
+		}
+	}
+	p = core.Guard(func() {
+		if (len(c.Base)+len(c.Delta))%2 == 0 {
+			one(chain, &got)
+			one(sibChain, &gotSib)
+		} else {
+			one(sibChain, &gotSib)
+			one(chain, &got)
+		}
 	})
 	return
 }
 
 func judge(r *core.Run, w *world, c Case) {
-	got, detail, p := w.exec(c)
+	got, gotSib, detail, p := w.exec2(c)
 	r.Eval(1)
 	if p != nil {
 		r.Count("panicked", 1)
@@ -154,6 +190,27 @@ func judge(r *core.Run, w *world, c Case) {
 		}
 		sort.Strings(a)
 		r.Violation(sig(all, c.WithST, got, a), fmt.Sprintf("%s: library %s, reference admits %v (%s)", c.desc(), got, a, detail), c)
+	}
+	// the sibling, checked against the very same bundle object before or after
+	var sibAll []refmodel.CRLEntry
+	sibListed := false
+	for _, l := range [][]refmodel.CRLEntry{c.Base, c.Delta} {
+		for i, e := range l {
+			e2 := e
+			e2.Match = isSib(e, i)
+			sibListed = sibListed || e2.Match
+			sibAll = append(sibAll, e2)
+		}
+	}
+	if sibAllowed := refmodel.CRLEntriesAllowed(sibAll, c.WithST); !sibAllowed[gotSib] {
+		var a []string
+		for k := range sibAllowed {
+			a = append(a, k)
+		}
+		sort.Strings(a)
+		r.Violation("sibling:"+sig(sibAll, c.WithST, gotSib, a), fmt.Sprintf("%s: the sibling certificate (entries at odd positions that do not name the checked certificate) came out %q on the same bundle object, reference admits %v", c.desc(), gotSib, a), c)
+	} else if sibListed {
+		r.Count("sibling-listed-and-judged", 1)
 	}
 	nt := false
 	for _, e := range all {
